@@ -382,6 +382,38 @@ def tail_move(ct: Container, rep, rule="tail-move-order", shift_rule="shift-cons
         rep.fail(rule, MOD(ct), fq, tr.stmt, "a normal path removes the entry without truncating the file", construct="truncate on all paths")
 
 
+def later_slots_precheck(ct: Container, ff: FuncFacts, pos):
+    """`if any(e.type != BlockType.unusedSlot for e in self.entries[pos+1:]): raise ...` - returns the If statement or None."""
+    want = to_poly(ast.BinOp(left=pos, op=ast.Add(), right=C(1)), ct.ctx)
+    for st in walk_no_nested(ff.f.node):
+        if not (isinstance(st, ast.If) and st.body and isinstance(st.body[-1], ast.Raise) and not st.orelse):
+            continue
+        t = st.test
+        neg = False
+        if isinstance(t, ast.UnaryOp) and isinstance(t.op, ast.Not):
+            t, neg = t.operand, True
+        if not (isinstance(t, ast.Call) and norm(t.func) in ("any", "all") and t.args and isinstance(t.args[0], (ast.GeneratorExp, ast.ListComp))):
+            continue
+        g = t.args[0]
+        gen = g.generators[0]
+        if gen.ifs or len(g.generators) != 1 or not ct.is_entries_slice(gen.iter):
+            continue
+        if isinstance(gen.iter, ast.Subscript) and (gen.iter.slice.upper is not None or gen.iter.slice.step is not None):
+            continue
+        if to_poly(ff.resolve(ct.slice_lower(gen.iter)), ct.ctx) != want:
+            continue
+        v = norm(gen.target)
+        e = g.elt
+        if not (isinstance(e, ast.Compare) and len(e.ops) == 1 and {norm(e.left), norm(e.comparators[0])} == {f"{v}.type", "BlockType.unusedSlot"}):
+            continue
+        is_ne = isinstance(e.ops[0], ast.NotEq)
+        fn = norm(t.func)
+        # raise iff some later entry is not unused:  any(!=)  or  not all(==)
+        if (fn == "any" and is_ne and not neg) or (fn == "all" and not is_ne and isinstance(e.ops[0], ast.Eq) and neg):
+            return st
+    return None
+
+
 # R7 repoint-later-slots
 def repoint_later(ct: Container, rep, rule="repoint-later-slots"):
     ff = ct.facts("add_block")
@@ -403,15 +435,19 @@ def repoint_later(ct: Container, rep, rule="repoint-later-slots"):
     # body: if type == unused: assign+write  else: raise
     fa = [e for e in ff.ev("field_assign") if e.field == "offset"]
     raises = [e for e in ff.ev("raise") if any(s is e.stmt for s in ast.walk(loop))]
+    pre = later_slots_precheck(ct, ff, pos)
+    pre_dom = pre is not None and ff.cfg.dominates(ff.cfg.node_of(pre), ff.cfg.node_of(loop))
     for e in fa:
         tests = [(t, br) for t, br in enclosing_tests(ff.f.node, e.stmt)]
         conds = [norm(t) for t, br in tests if br]
         if len(tests) == 1 and tests[0][1] and norm(tests[0][0]).replace(" ", "") in (
                 f"{norm(e.entry)}.type==BlockType.unusedSlot", f"BlockType.unusedSlot=={norm(e.entry)}.type"):
             rep.ok(rule, f"{fq}: every later unused slot is re-pointed (only condition: type == unusedSlot)")
+        elif not tests and pre_dom:
+            rep.ok(rule, f"{fq}: every later slot is re-pointed unconditionally; a dominating check established they are all unused", nontrivial=True)
         else:
             rep.fail(rule, MOD(ct), fq, e.stmt, f"re-pointing is conditional on {conds or 'an else-branch'}: some later unused slots keep a stale offset")
-    if raises:
+    if raises or pre_dom:
         rep.ok(rule, f"{fq}: a live entry after the filled slot is refused")
     else:
         rep.fail(rule, MOD(ct), fq, loop, "a live entry after an unused slot is no longer refused (its offset would silently be wrong)",
